@@ -176,6 +176,10 @@ impl OutputFormat for TundraDraw {
             let mut cmd = data[o];
             o += 1;
             if cmd == TUNDRA_POSITION {
+                // a jump is followed by two 32 bit numbers
+                if o + 8 > data.len() {
+                    return Err(LoadingError::FileTooShort.into());
+                }
                 pos.y = to_u32(&data[o..]);
                 if pos.y >= (u16::MAX) as i32 {
                     return Err(io::Error::new(
@@ -202,6 +206,17 @@ impl OutputFormat for TundraDraw {
             }
 
             if cmd > 1 && cmd <= 6 {
+                // character byte + one (pad, r, g, b) record per color flag
+                let mut record_len = 1;
+                if cmd & TUNDRA_COLOR_FOREGROUND != 0 {
+                    record_len += 4;
+                }
+                if cmd & TUNDRA_COLOR_BACKGROUND != 0 {
+                    record_len += 4;
+                }
+                if o + record_len > data.len() {
+                    return Err(LoadingError::FileTooShort.into());
+                }
                 let ch = data[o];
                 o += 1;
                 if cmd & TUNDRA_COLOR_FOREGROUND != 0 {
